@@ -1,0 +1,62 @@
+// Verification hooks (deterministic simulation); compiled only with `--cfg maidsafe_safe_network_verif`.
+// Read-only views of the record store's private state, for the harness's oracles.
+
+use super::*;
+use crate::record_store_api::UnifiedRecordStore;
+
+impl NodeRecordStore {
+    pub fn verif_index(&self) -> Vec<(Key, NetworkAddress, RecordType)> {
+        self.records
+            .iter()
+            .map(|(k, (a, t))| (k.clone(), a.clone(), t.clone()))
+            .collect()
+    }
+
+    pub fn verif_distance_index(&self) -> Vec<(U256, Key)> {
+        self.records_by_distance
+            .iter()
+            .map(|(d, k)| (*d, k.clone()))
+            .collect()
+    }
+
+    pub fn verif_farthest(&self) -> Option<Key> {
+        self.get_farthest()
+    }
+
+    pub fn verif_cache_keys(&self) -> Vec<Key> {
+        self.records_cache.records_cache.keys().cloned().collect()
+    }
+
+    pub fn verif_config(&self) -> NodeRecordStoreConfig {
+        self.config.clone()
+    }
+
+    pub fn verif_received_payment_count(&self) -> usize {
+        self.received_payment_count
+    }
+
+    pub fn verif_start_time(&self) -> SystemTime {
+        self.timestamp
+    }
+
+    pub fn verif_contains(&self, key: &Key) -> bool {
+        self.contains(key)
+    }
+
+    pub fn verif_record_addresses(&self) -> HashMap<NetworkAddress, RecordType> {
+        self.record_addresses()
+    }
+
+    pub fn verif_quoting_metrics(&self, key: &Key, network_size: Option<u64>) -> (QuotingMetrics, bool) {
+        self.quoting_metrics(key, network_size)
+    }
+}
+
+impl UnifiedRecordStore {
+    pub fn verif_node_store(&mut self) -> Option<&mut NodeRecordStore> {
+        match self {
+            Self::Client(_) => None,
+            Self::Node(store) => Some(store),
+        }
+    }
+}
